@@ -71,6 +71,12 @@ FIXED_ATOMS = [
     {"kind": "date", "col": "modified", "op": "=", "lit": "2020-01-02", "quoted": True},
     {"kind": "date", "col": "modified", "op": "!=", "lit": "2020-01-02", "quoted": True},
     {"kind": "datebetween", "col": "modified", "op": "between", "lit": "2020-01-02", "lit2": "2020-01-02"},
+    # strict comparisons whose literal would mean something else under plain equality (wildcard, date interval)
+    {"kind": "text", "fam": "strict", "col": "name", "op": "===", "lit": "*.log"},
+    {"kind": "text", "fam": "strict", "col": "name", "op": "!==", "lit": "s1*"},
+    {"kind": "text", "fam": "strict", "col": "name", "op": "!==", "lit": "s?00_1.log"},
+    {"kind": "date", "col": "modified", "op": "===", "lit": "2020-01-02", "quoted": True},
+    {"kind": "date", "col": "modified", "op": "!==", "lit": "2020-01-02", "quoted": True},
 ]
 # the same literal text under three operator families (glob, LIKE, regex) - each compiles to a different matcher
 SHARED = [
